@@ -2,32 +2,34 @@
   C09 — collection queries return exactly the specified members, self-consistently.
 
   Model    : Model/Query.lean   (mirror of gene/collections.py 455-974 + gene.py / feature.py / variants.py
-             `query_by_guids`; executes the GENERATED `Gen.bins` and `Gen.SingleInterval_parent_to_relative_pos`)
+             `query_by_guids`, BOTH branches of the position query; executes the GENERATED `Gen.bins` and
+             `Gen.SingleInterval_parent_to_relative_pos`)
   Spec     : Spec/Query.lean    (membership clause `keepSpec`, documented bounds, sequence restriction, set-builder
-             specs of the id queries; no bins)
+             specs of the id queries; no bins, no interval tree)
   Lemmas   : Proofs/QueryKept, QueryResult, QueryBounds, QueryMain, QueryPos, QueryFindings, QueryIds,
-             QueryIntervals, QueryIntervals2, QueryTies
+             QueryIntervals, QueryIntervals2, QueryIdentity, QueryOptimized, QueryTies
 
   T1  position queries keep exactly `specFilter` — the bin pre-filter never changes the answer (this is where the
-      C16 theorems `never_hides_bed`, `bins_one_bed`, `bins_all_is_set` about the generated kernel are used);
-      rejected ranges = exactly the documented ones.
-  T2  result bounds = documented bounds; `_subset_parent` yields the chromosome stretch [start,end) of the source
-      sequence (whole-chromosome and already-chunked sources); members keep coordinates / identifiers / guids and
-      their sequence is the source's restricted to the new bounds.
-  T3  GUID / identifier / interval-GUID queries = set-builder specs; kept children keep only requested grandchildren.
-  F   the modelled CURRENT code deviates on the finding inputs (F-C09b, F-C09c, F-C19f): witnesses below; the `meets`
+      C16 theorems `never_hides_bed`, `bins_one_bed`, `bins_all_is_set` about the generated kernel are used), and
+      neither does the choice of branch (cgranges interval tree vs. the loop); rejected ranges = exactly the
+      documented ones.
+  T2  result bounds = documented bounds; `_subset_parent` yields the chromosome stretch of the source sequence for
+      whole-chromosome and chunk parents, with bounds taken from the parent or EXPLICIT (inside / equal to / off the
+      sequence); member identity (GUID, kind, identifiers, chromosome blocks, strand) is preserved; member sequences
+      are the source's restricted to the new bounds.
+  T3  GUID / identifier / interval-GUID queries = set-builder specs for genes, feature collections and variant
+      collections; kept children keep only requested grandchildren.
+  F   the modelled CURRENT code deviates on the finding inputs (F-C19f, F-C09d): witnesses below; the `meets`
       theorems are stated on the complement (their hypotheses say exactly which inputs are excluded).
-      F-C09a is repaired in /repo (88921fc): its witness became the positive theorem `coding_only_skips_variants`.
-  R   repairs behind constants: `Model.Query.repairedC09b`, `repairedC09c` (both `false` = the code as it is) and
-      `variantFromDictDropsParent` (`true`).  `subsetParentG fixB fixC` models `_subset_parent` as coded and with the
-      candidate patch (findings/C09.candidate_patches.diff); every theorem below is proved for the constants AS
-      SYMBOLS (never unfolded), the witnesses are stated about `subsetParentG false false` / `… true true`
-      explicitly — so flipping a constant after applying the patch keeps this file compiling, admits sequence-less
-      parents (`ParWF`) and out-of-chunk members of id queries (`IdDomain`), and nothing else changes.
+      Repaired in /repo and now theorems about the code as it is: F-C09a (`coding_only_skips_variants`), F-C09b
+      (`subset_parent_noseq`), F-C09c (`subset_parent_chunk`, the clamp); the behaviour BEFORE the repairs is kept
+      as regression witnesses (`regression_F_C09b`, `regression_F_C09c`) about `subsetParentBefore`.
 -/
 import BioCantor.Proofs.QueryFindings
 import BioCantor.Proofs.QueryIds
 import BioCantor.Proofs.QueryIntervals2
+import BioCantor.Proofs.QueryIdentity
+import BioCantor.Proofs.QueryOptimized
 import BioCantor.Proofs.QueryTies
 import BioCantor.Props.C16
 namespace BioCantor.Props.C09
@@ -78,53 +80,111 @@ theorem overlap_kernel_is_location_kernel (a b : Blk) (ha : a.1 ≤ a.2) (hb : b
     overlapInt ((a.1 : Int), (a.2 : Int)) ((b.1 : Int), (b.2 : Int)) = Model.overlapKernel a b :=
   overlapInt_eq_overlapKernel a b ha hb
 
-/-! ## T2 — bounds, the re-chunked parent, member sequences -/
+/-- T1d (branch independence): the cgranges branch `_optimized_query_by_position` — `tree.overlap` (TRUSTED: the
+    interval tree returns exactly the entries with `genomic_start < end ∧ start < genomic_end`) followed by the
+    `contains` / `coding_only` post-filters — keeps exactly the members the pure-Python loop keeps, in strict mode
+    always and in relaxed mode when no child has a zero-length span.  So the claim does not depend on which branch
+    runs (cgranges is absent in this sandbox: proof only). -/
+theorem optimized_branch_agrees (src : Source) (s e : Int) (cw co : Bool) (hs : 0 ≤ s) (hse : s < e)
+    (hwf : ∀ c ∈ src.children, ChildWF c) (hne : cw = true ∨ ∀ c ∈ src.children, c.start < c.stop) :
+    optimizedKept src s e cw co = queryKept src s e cw co :=
+  optimizedKept_eq_queryKept src s e cw co hs hse hwf hne
 
-/-- T2a: whole-chromosome source: `_subset_parent(start, end)` = the stretch `[start,end)` of the sequence. -/
-theorem subset_parent_whole (src : Source) (seq : List Char) (hp : src.par = .whole seq) (hb : src.bounds = none)
-    (start stop : Int) (h : 0 ≤ start ∧ start < stop ∧ stop ≤ seq.length) :
+/-- T1d' (the one divergence of the two branches, a finding on paper — it cannot be executed here): in RELAXED mode
+    a zero-length child strictly inside the range IS returned by the cgranges branch and is NOT returned by the
+    pure-Python branch (nor wanted by the specification: an empty span overlaps nothing). -/
+theorem optimized_branch_differs_on_empty_span (src : Source) (s e : Int) (hs : 0 ≤ s) (hse : s < e)
+    (hwf : ∀ c ∈ src.children, ChildWF c) (c : Child) (hc : c ∈ src.children) (hz : c.start = c.stop)
+    (hin : s < c.start ∧ c.start < e) :
+    (∃ kept, optimizedKept src s e false false = .ok kept ∧ c ∈ kept) ∧
+    (∃ kept, queryKept src s e false false = .ok kept ∧ c ∉ kept) :=
+  optimized_keeps_empty_span_relaxed src s e hs hse hwf c hc hz hin
+
+/-! ## T2 — bounds, the re-chunked parent, member identity and sequences -/
+
+/-- T2a: whole-chromosome source with bounds `[bs, be)` on the sequence (the chromosome's `[0, len)` or explicit
+    `start=`/`end=`): inside the bounds `_subset_parent(start, end)` = the stretch `[start, end)` of the sequence;
+    the bounds themselves keep the parent. -/
+theorem subset_parent_whole (src : Source) (seq : List Char) (hp : src.par = .whole seq) (bs be : Int)
+    (hb : selfBounds src = some (bs, be)) (hbs : 0 ≤ bs ∧ be ≤ seq.length)
+    (start stop : Int) (h : bs ≤ start ∧ start < stop ∧ stop ≤ be) :
     subsetParent src start stop =
-      .ok (if start = 0 ∧ stop = seq.length then .whole seq else .chunk start stop (slice seq start stop)) :=
-  subsetParent_whole src seq hp hb start stop h
+      .ok (if start = bs ∧ stop = be then .whole seq else .chunk start stop (slice seq start stop)) :=
+  subsetParent_whole src seq hp bs be hb hbs start stop h
 
-/-- T2b: already-chunked source `[cs, cs+len)`: the stretch `[start,end)`, read at `start - cs` of the chunk. -/
+/-- T2b: chunk source `[cs, ce)` whose bounds `[bs, be)` (the chunk's, or explicit) meet the chunk: a range whose
+    clamp to the bounds lands on the located stretch `[max bs cs, min be ce)` yields the stretch
+    `[max start bs, min stop be)` read at `· - cs` of the chunk — inside the bounds that is `[start, stop)`, and a
+    range reaching beyond them (id queries) is clamped without losing a base (F-C09c repaired). -/
 theorem subset_parent_chunk (src : Source) (cs : Int) (seq : List Char) (hp : src.par = .chunk cs seq)
-    (hb : src.bounds = none) (hcs : 0 ≤ cs) (start stop : Int)
-    (h : cs ≤ start ∧ start < stop ∧ stop ≤ cs + seq.length) :
+    (bs be : Int) (hb : selfBounds src = some (bs, be)) (hcs : 0 ≤ cs) (hbb : bs ≤ be)
+    (hov : max bs cs < min be (cs + seq.length)) (start stop : Int) (hne : start ≠ stop)
+    (h : max bs cs ≤ max start bs ∧ max start bs < min stop be ∧ min stop be ≤ min be (cs + seq.length)) :
     subsetParent src start stop =
-      .ok (if start = cs ∧ stop = cs + seq.length then .chunk cs (cs + seq.length) seq
-           else .chunk start stop (slice seq (start - cs) (stop - cs))) :=
-  subsetParent_chunk src cs seq hp hb hcs start stop h
+      .ok (if start = bs ∧ stop = be then .chunk cs (cs + seq.length) seq
+           else .chunk (max start bs) (min stop be) (slice seq (max start bs - cs) (min stop be - cs))) :=
+  subsetParent_chunk src cs seq hp bs be hb hcs hbb hov start stop hne h
 
-/-- T2b': declaratively — the sequence cut for `[start, stop)` holds, at every chromosome position `p` of the new
+/-- T2b': explicit bounds that miss the chunk: the collection has no sequence, neither has the result. -/
+theorem subset_parent_chunk_off (src : Source) (cs : Int) (seq : List Char) (hp : src.par = .chunk cs seq)
+    (bs be : Int) (hb : selfBounds src = some (bs, be)) (hbb : bs ≤ be)
+    (hoff : ¬ max bs cs < min be (cs + seq.length)) (start stop : Int) :
+    subsetParent src start stop = .ok .none :=
+  subsetParent_chunk_off src cs seq hp bs be hb hbb hoff start stop
+
+/-- T2b'': a sequence-less parent is handed on unchanged (F-C09b repaired); a zero-length result drops it. -/
+theorem subset_parent_noseq (src : Source) (hp : src.par = .noseq) (start stop : Int) :
+    subsetParent src start stop = .ok (if start = stop then .none else .noseq) :=
+  subsetParent_noseq src hp start stop
+
+/-- T2b''': declaratively — the sequence cut for `[start, stop)` holds, at every chromosome position `p` of the new
     range, the source's base at `p` (`lo` = chromosome position of the source sequence's first base). -/
 theorem new_chunk_base_at (lo : Int) (seq : List Char) (start stop p : Int) (h0 : lo ≤ start)
     (hp : start ≤ p ∧ p < stop) :
     (stretch lo seq start stop)[(p - start).toNat]? = seq[(p - lo).toNat]? :=
   stretch_base lo seq start stop p h0 hp
 
+/-- T2b⁗: for every well-formed source — any parent kind, bounds inferred or explicit — `_subset_parent` succeeds on
+    the ranges the queries ask for and carries, in normal form, exactly the specified parent. -/
+theorem subset_parent_is_expected (src : Source) (wf : SrcWF src) (bs be : Int)
+    (hb : selfBounds src = some (bs, be)) (start stop : Int) (hdom : SubsetDomain src bs be start stop) :
+    ∃ rp, subsetParent src start stop = .ok rp ∧ rp.norm = (expectPar src start stop).norm := by
+  obtain ⟨rp, h1, h2, _, _⟩ := subsetParent_spec src wf bs be hb start stop hdom
+  exact ⟨rp, h1, h2⟩
+
 /-- T2c: a member's sequence computed the model's way (lift onto the new chunk, slice the chunk's sequence) is the
     spec's (bases of the member ∩ new range read at chromosome coordinates). -/
 theorem member_sequence (rp : RPar) (g : GChild) (hg : g.start ≤ g.stop)
     (hrp : match rp with
-           | .whole seq => 0 ≤ g.start ∧ g.stop ≤ seq.length
-           | .chunk cs ce _ => cs ≤ ce
+           | .whole seq => seq ≠ [] ∧ 0 ≤ g.start ∧ g.stop ≤ seq.length
+           | .chunk cs ce seq => seq ≠ [] ∧ cs ≤ ce
            | _ => True) :
     (memberSeq rp g).norm = (expectMSeq rp g).norm := memberSeq_norm_eq_expect rp g hg hrp
 
-/-- T1 + T2 (the full clause for position queries): for EVERY well-formed source that has bounds, EVERY range
-    (incl. None, negative, inverted, empty, out of bounds) and EVERY flag combination, the answer of the modelled
-    `query_by_position` is accepted by the specification: rejected iff the range is not a non-empty sub-range of the
-    bounds (or the expansion leaves the sequence), else exactly the `specFilter` members with unchanged
-    coordinates / identifiers / guids, the documented bounds, the source's sequence restricted to them, and member
-    sequences restricted likewise.
-    Excluded (findings, witnesses below): F-C09b (until `repairedC09b`) / F-C08a (`SrcWF.par`), F-C19f (`hb`). -/
+/-- T2d (member identity, position queries): whatever `query_by_position` returns — every range, every flag
+    combination, every parent kind, bounds explicit or not — each member of the result is a member of the source
+    with the same GUID, kind, identifiers, chromosome span and grandchildren (GUID, chromosome block, strand),
+    `to_dict()`-equal.  No hypothesis on the parent or on the bounds. -/
+theorem position_query_preserves_members (src : Source) (q : PosQ) (hh : ∀ c ∈ src.children, ChildHull c)
+    (r : Result) (h : queryByPosition src q = .ok r) :
+    ∀ rc ∈ r.children, ∃ c ∈ src.children, SameMember rc c :=
+  queryByPosition_identity src q hh r h
+
+/-- T1 + T2 (the full clause for position queries): for EVERY well-formed source that has bounds — no parent,
+    sequence-less parent, whole chromosome, chunk; bounds inferred or explicit —, EVERY range (incl. None, negative,
+    inverted, empty, out of bounds) and EVERY flag combination, the answer of the modelled `query_by_position` is
+    accepted by the specification: rejected iff the range is not a non-empty sub-range of the bounds or the
+    expansion leaves the sequence, else exactly the `specFilter` members with unchanged coordinates / identifiers /
+    guids / strands, the documented bounds, the source's sequence restricted to them, and member sequences
+    restricted likewise.
+    Excluded (findings, witnesses below): F-C09d (`SrcWF.par`: explicit bounds reaching beyond the chunk they
+    meet), F-C19f (`hb`: no bounds at all). -/
 theorem query_by_position_meets_spec (src : Source) (q : PosQ) (wf : SrcWF src) (b : Int × Int)
     (hb : selfBounds src = some b) :
     okQueryByPosition src q (toAns (queryByPosition src q)) = true :=
   queryByPosition_meets src q wf b hb
 
-/-- T2d (corollary): an accepted answer carries the documented bounds. -/
+/-- T2e (corollary): an accepted answer carries the documented bounds. -/
 theorem result_bounds_documented (src : Source) (q : PosQ) (wf : SrcWF src) (bs be : Int)
     (hb : selfBounds src = some (bs, be))
     (r : Result) (hr : queryByPosition src q = .ok r) :
@@ -132,18 +192,26 @@ theorem result_bounds_documented (src : Source) (q : PosQ) (wf : SrcWF src) (bs 
       (specFilter src.children q.codingOnly q.cw (optOr q.s bs) (optOr q.e be)) := by
   have h := queryByPosition_meets src q wf (bs, be) hb
   rw [hr] at h
-  unfold okQueryByPosition expectQueryByPosition at h
-  rw [specBounds_eq_self hb] at h
-  simp only [toAns] at h
-  split at h
-  · simp [meets] at h
-  · split at h
-    · simp [meets] at h
-    · simp only [meets, beq_iff_eq] at h
-      have h1 := congrArg Result.start h
-      have h2 := congrArg Result.stop h
-      simp only [Result.norm, expectResult] at h1 h2
-      rw [h1, h2]
+  have hx : expectQueryByPosition src q = .reject ∨ expectQueryByPosition src q = .result (expectResult src
+      (resultBounds q (optOr q.s bs) (optOr q.e be)
+        (specFilter src.children q.codingOnly q.cw (optOr q.s bs) (optOr q.e be))).1
+      (resultBounds q (optOr q.s bs) (optOr q.e be)
+        (specFilter src.children q.codingOnly q.cw (optOr q.s bs) (optOr q.e be))).2
+      (specFilter src.children q.codingOnly q.cw (optOr q.s bs) (optOr q.e be))) := by
+    unfold expectQueryByPosition
+    rw [specBounds_eq_self hb]
+    simp only []
+    repeat' split
+    all_goals first | exact Or.inl rfl | exact Or.inr rfl
+  unfold okQueryByPosition at h
+  rcases hx with hx | hx
+  · rw [hx] at h; simp [meets, toAns] at h
+  · rw [hx] at h
+    simp only [meets, toAns, beq_iff_eq] at h
+    have h1 := congrArg Result.start h
+    have h2 := congrArg Result.stop h
+    simp only [Result.norm, expectResult] at h1 h2
+    rw [h1, h2]
 
 /-! ## hypotheses are satisfiable (non-vacuity) -/
 
@@ -154,101 +222,179 @@ def exFeat : Child := ⟨.feat, 6, 10, false, 2, [['a']], [⟨6, 10, .minus, 110
 def exSeq : List Char := ['A','C','G','T','T','G','C','A','A','G','C','T']
 def exW : Source := ⟨.whole exSeq, none, [exGene, exFeat]⟩
 def exK : Source := ⟨.chunk 3 ['T','T','G','C','A','A'], none, [exGene, exFeat]⟩
+/-- the same chromosome with EXPLICIT bounds `[1, 11)` -/
+def exWB : Source := ⟨.whole exSeq, some (1, 11), [exGene, exFeat]⟩
+/-- a chunk `[3, 9)` with EXPLICIT bounds `[4, 8)` inside it -/
+def exKB : Source := ⟨.chunk 3 ['T','T','G','C','A','A'], some (4, 8), [exGene, exFeat]⟩
 
 example : ChildWF exGene := ⟨by decide, by decide⟩
 example : ChildHull exGene := ⟨by decide, by decide⟩
 
-theorem exW_wf : SrcWF exW := by
-  refine ⟨?_, by decide, ?_⟩
-  · intro c hc
-    simp only [exW, List.mem_cons, List.not_mem_nil, or_false] at hc
-    rcases hc with rfl | rfl <;> exact ⟨by decide, by decide⟩
-  · simp only [ParWF, exW, true_and]
-    intro c hc
-    simp only [List.mem_cons, List.not_mem_nil, or_false] at hc
-    rcases hc with rfl | rfl <;> exact ⟨by decide, by decide⟩
+theorem ex_hull : ∀ c ∈ [exGene, exFeat], ChildHull c := by
+  intro c hc
+  simp only [List.mem_cons, List.not_mem_nil, or_false] at hc
+  rcases hc with rfl | rfl <;> exact ⟨by decide, by decide⟩
+
+theorem ex_on_seq : ∀ c ∈ [exGene, exFeat], ∀ g ∈ c.gcs, 0 ≤ g.start ∧ g.stop ≤ (exSeq.length : Int) := by
+  intro c hc
+  simp only [List.mem_cons, List.not_mem_nil, or_false] at hc
+  rcases hc with rfl | rfl <;> decide
+
+theorem exW_wf : SrcWF exW := ⟨ex_hull, by decide, by decide, ⟨by decide, ex_on_seq⟩⟩
+theorem exWB_wf : SrcWF exWB := ⟨ex_hull, by decide, by decide, ⟨by decide, ex_on_seq⟩⟩
+theorem exK_wf : SrcWF exK :=
+  ⟨ex_hull, by decide, by decide, ⟨by decide, by decide, by intro bs be h; cases h⟩⟩
+theorem exKB_wf : SrcWF exKB := by
+  refine ⟨ex_hull, by decide, by decide, ⟨by decide, by decide, ?_⟩⟩
+  intro bs be h _
+  simp only [exKB, Option.some.injEq, Prod.mk.injEq] at h
+  obtain ⟨rfl, rfl⟩ := h
+  decide
 
 example : selfBounds exW = some (0, 12) := rfl
+example : selfBounds exKB = some (4, 8) := rfl
 example : okQueryByPosition exW ⟨some 4, some 7, false, false, false⟩
     (toAns (queryByPosition exW ⟨some 4, some 7, false, false, false⟩)) = true :=
   query_by_position_meets_spec exW _ exW_wf (0, 12) rfl
+/-- explicit bounds on a whole chromosome, expansion requested -/
+example : okQueryByPosition exWB ⟨some 4, some 7, false, false, true⟩
+    (toAns (queryByPosition exWB ⟨some 4, some 7, false, false, true⟩)) = true :=
+  query_by_position_meets_spec exWB _ exWB_wf (1, 11) rfl
+/-- explicit bounds inside a chunk -/
+example : okQueryByPosition exKB ⟨some 5, none, true, false, false⟩
+    (toAns (queryByPosition exKB ⟨some 5, none, true, false, false⟩)) = true :=
+  query_by_position_meets_spec exKB _ exKB_wf (4, 8) rfl
 
 /-! ## T3 — GUID / identifier queries are their set-builder specifications -/
 
 /-- T3a: `query_by_guids(ids)` (ids a set) returns exactly { c | c.guid ∈ ids }: unchanged members, bounds = the
-    source bounds widened to the kept members, the source's sequence.  `hin` (`IdDomain`): the members lie inside
-    the bounds — this excludes only F-C09c (a member reaching beyond the sequence chunk) and is dropped for chunks
-    once `repairedC09c` is flipped (second disjunct); for whole-chromosome sources it holds by construction. -/
+    source bounds widened to the kept members, the source's sequence (on a chunk: clamped to the bounds).
+    `hW` (`WholeBoundsOK`) excludes only F-C09d (b): a whole chromosome with EXPLICIT bounds narrower than a
+    member; it is vacuous for every other source. -/
 theorem query_by_guids_meets_spec (src : Source) (wf : SrcWF src) (ids : List Nat) (hids : ids.Nodup) (bs be : Int)
-    (hb : selfBounds src = some (bs, be)) (hne : src.par.hasSeq = true → bs < be)
-    (hin : src.par.hasSeq = true → IdDomain src bs be src.children) :
+    (hb : selfBounds src = some (bs, be)) (hW : WholeBoundsOK src) :
     okQueryByGuids src ids (toAns (queryByGuids src ids)) = true :=
-  queryByGuids_meets src wf ids hids bs be hb hne hin
+  queryByGuids_meets src wf ids hids bs be hb hW
 
 /-- T3b: `query_by_feature_identifiers(ids)` returns exactly { c | c.identifiers ∩ ids ≠ ∅ }. -/
 theorem query_by_identifiers_meets_spec (src : Source) (wf : SrcWF src) (ids : List (List Char)) (bs be : Int)
-    (hb : selfBounds src = some (bs, be)) (hne : src.par.hasSeq = true → bs < be)
-    (hin : src.par.hasSeq = true → IdDomain src bs be src.children) :
+    (hb : selfBounds src = some (bs, be)) (hW : WholeBoundsOK src) :
     okQueryByIdentifiers src ids (toAns (queryByIdentifiers src ids)) = true :=
-  queryByIdentifiers_meets src wf ids bs be hb hne hin
-
-example : okQueryByGuids exW [2, 999] (toAns (queryByGuids exW [2, 999])) = true :=
-  query_by_guids_meets_spec exW exW_wf [2, 999] (by decide) 0 12 rfl (by intro _; decide) (by
-    intro _
-    refine Or.inl (fun c hc => ?_)
-    simp only [exW, List.mem_cons, List.not_mem_nil, or_false] at hc
-    rcases hc with rfl | rfl <;> decide)
+  queryByIdentifiers_meets src wf ids bs be hb hW
 
 /-- T3c: `query_by_interval_guids` (kinds = all), `query_by_transcript_interval_guids` (kinds = [gene]),
     `query_by_feature_interval_guids` (kinds = [feat]) return exactly the children of a requested kind owning a
     requested grandchild, each keeping ONLY its requested grandchildren (span = their hull, same guid and
-    identifiers).  `GcWF`: grandchild guids are distinct and owned by one child.  Stated for genes and feature
-    collections (`hnv`); variant collections (sorted / overlap check of `VariantIntervalCollection.__init__`) rest on
-    the correspondence run — full statement: the same without `hnv`, for sources whose variant lists are
-    start-sorted and non-overlapping. -/
-theorem query_by_interval_guids_meets_spec_partial (src : Source) (wf : SrcWF src) (gw : GcWF src) (kinds : List Kind)
-    (ids : List Nat) (hids : ids.Nodup) (hnv : ∀ c ∈ src.children, c.kind ≠ .var) (bs be : Int)
-    (hb : selfBounds src = some (bs, be)) (hne : src.par.hasSeq = true → bs < be)
-    (hin : src.par.hasSeq = true → IdDomain src bs be src.children) :
+    identifiers) — genes, feature collections AND variant collections.
+    `GcWF`: grandchild guids are distinct and owned by one child.  `hvar`: the variants of a variant collection are
+    listed by start, pairwise disjoint and non-empty (what `VariantIntervalCollection.__init__` sorts and checks;
+    its constructor re-checks the selection, which therefore passes). -/
+theorem query_by_interval_guids_meets_spec (src : Source) (wf : SrcWF src) (gw : GcWF src) (kinds : List Kind)
+    (ids : List Nat) (hids : ids.Nodup) (hvar : ∀ c ∈ src.children, c.kind = .var → VarOK c) (bs be : Int)
+    (hb : selfBounds src = some (bs, be)) (hW : WholeBoundsOK src) :
     okQueryByIntervalGuids src kinds ids (toAns (queryByIntervalGuids src kinds ids)) = true :=
-  queryByIntervalGuids_meets src wf gw kinds ids hids hnv bs be hb hne hin
+  queryByIntervalGuids_meets src wf gw kinds ids hids hvar bs be hb hW
 
-/-- T3d: `GeneInterval.query_by_guids` / `FeatureIntervalCollection.query_by_guids`: `None` iff nothing is
-    requested, else the same child reduced to the requested grandchildren on the unchanged parent. -/
+/-- T3d: `GeneInterval / FeatureIntervalCollection / VariantIntervalCollection.query_by_guids`: `None` iff nothing
+    is requested, else the same child reduced to the requested grandchildren on the unchanged parent. -/
 theorem child_query_by_guids_meets_spec (src : Source) (wf : SrcWF src) (gw : GcWF src) (c : Child)
-    (hc : c ∈ src.children) (hk : c.kind ≠ .var) (ids : List Nat) (hids : ids.Nodup) :
+    (hc : c ∈ src.children) (hk : c.kind = .var → VarOK c) (ids : List Nat) (hids : ids.Nodup) :
     okChildQueryByGuids src c ids (toCAns (childQueryResult src c ids)) = true :=
   childQuery_meets src wf gw c hc hk ids hids
 
-theorem exW_gcwf : GcWF exW := by
+/-- T3e (member identity, GUID and identifier queries): every returned member is a source member, unchanged. -/
+theorem guid_query_preserves_members (src : Source) (ids : List Nat) (hh : ∀ c ∈ src.children, ChildHull c)
+    (r : Result) (h : queryByGuids src ids = .ok r) : ∀ rc ∈ r.children, ∃ c ∈ src.children, SameMember rc c :=
+  queryByGuids_identity src ids hh r h
+theorem identifier_query_preserves_members (src : Source) (ids : List (List Char))
+    (hh : ∀ c ∈ src.children, ChildHull c) (r : Result) (h : queryByIdentifiers src ids = .ok r) :
+    ∀ rc ∈ r.children, ∃ c ∈ src.children, SameMember rc c :=
+  queryByIdentifiers_identity src ids hh r h
+
+/-- T3f (member identity, interval-GUID queries): every returned member is a source member (same GUID, kind,
+    identifiers) holding ONLY grandchildren of that member that were requested, each unchanged (GUID, chromosome
+    block, strand) — all three kinds, any parent, any bounds. -/
+theorem interval_guid_query_keeps_only_requested (src : Source) (kinds : List Kind) (ids : List Nat)
+    (hv : ∀ c ∈ src.children, ∀ g ∈ c.gcs, g.start ≤ g.stop) (r : Result)
+    (h : queryByIntervalGuids src kinds ids = .ok r) :
+    ∀ rc ∈ r.children, ∃ c ∈ src.children, ReducedMember ids rc c :=
+  queryByIntervalGuids_identity src kinds ids hv r h
+
+def exVar : Child := ⟨.var, 9, 12, false, 3, [], [⟨9, 10, .plus, 1200⟩, ⟨11, 12, .plus, 1201⟩]⟩
+/-- no parent, explicit bounds, a gene and a variant collection -/
+def exN : Source := ⟨.none, some (0, 12), [exGene, exVar]⟩
+
+theorem exN_hull : ∀ c ∈ exN.children, ChildHull c := by
+  intro c hc
+  simp only [exN, List.mem_cons, List.not_mem_nil, or_false] at hc
+  rcases hc with rfl | rfl <;> exact ⟨by decide, by decide⟩
+
+theorem exN_wf : SrcWF exN := ⟨exN_hull, by decide, by decide, trivial⟩
+
+theorem exN_var : ∀ c ∈ exN.children, c.kind = .var → VarOK c := by
+  intro c hc hk
+  simp only [exN, List.mem_cons, List.not_mem_nil, or_false] at hc
+  rcases hc with rfl | rfl
+  · cases hk
+  · exact ⟨by decide, by decide⟩
+
+theorem gcwf_of_pair (par : Par) (b : Option (Int × Int)) (c1 c2 : Child)
+    (h1 : (c1.gcs.map GChild.guid).Nodup) (h2 : (c2.gcs.map GChild.guid).Nodup)
+    (hd : ∀ x ∈ c1.gcs, ∀ y ∈ c2.gcs, x.guid ≠ y.guid) : GcWF ⟨par, b, [c1, c2]⟩ := by
   refine ⟨?_, ?_⟩
   · intro c hc
-    simp only [exW, List.mem_cons, List.not_mem_nil, or_false] at hc
-    rcases hc with rfl | rfl <;> decide
-  · intro c hc c2 hc2 x hx x2 hx2 hg
-    simp only [exW, List.mem_cons, List.not_mem_nil, or_false] at hc hc2
-    rcases hc with rfl | rfl <;> rcases hc2 with rfl | rfl
+    simp only [List.mem_cons, List.not_mem_nil, or_false] at hc
+    rcases hc with rfl | rfl <;> assumption
+  · intro c hc c' hc' x hx y hy hg
+    simp only [List.mem_cons, List.not_mem_nil, or_false] at hc hc'
+    rcases hc with rfl | rfl <;> rcases hc' with rfl | rfl
     · rfl
-    · simp only [exGene, exFeat, exG1, exG2, List.mem_cons, List.not_mem_nil, or_false] at hx hx2
-      rcases hx with rfl | rfl <;> subst hx2 <;> simp at hg
-    · simp only [exGene, exFeat, exG1, exG2, List.mem_cons, List.not_mem_nil, or_false] at hx hx2
-      rcases hx2 with rfl | rfl <;> subst hx <;> simp at hg
+    · exact absurd hg (hd x hx y hy)
+    · exact absurd hg.symm (hd y hy x hx)
     · rfl
+
+theorem exW_gcwf : GcWF exW := gcwf_of_pair _ _ exGene exFeat (by decide) (by decide) (by decide)
+theorem exN_gcwf : GcWF exN := gcwf_of_pair _ _ exGene exVar (by decide) (by decide) (by decide)
+
+theorem wholeBoundsOK_inferred (src : Source) (h : src.bounds = none) : WholeBoundsOK src := by
+  intro seq bs be _ hb; rw [h] at hb; cases hb
+
+theorem wholeBoundsOK_nonwhole (src : Source) (h : ∀ seq, src.par ≠ .whole seq) : WholeBoundsOK src := by
+  intro seq bs be hp _; exact absurd hp (h seq)
+
+example : okQueryByGuids exW [2, 999] (toAns (queryByGuids exW [2, 999])) = true :=
+  query_by_guids_meets_spec exW exW_wf [2, 999] (by decide) 0 12 rfl (wholeBoundsOK_inferred _ rfl)
+
+/-- id query on a chunk keeping members that reach beyond it on both sides: clamped, nothing lost -/
+example : okQueryByGuids exK [1, 2] (toAns (queryByGuids exK [1, 2])) = true :=
+  query_by_guids_meets_spec exK exK_wf [1, 2] (by decide) 3 9 rfl (wholeBoundsOK_inferred _ rfl)
+
+example : okQueryByIdentifiers exW [['b'], ['z']] (toAns (queryByIdentifiers exW [['b'], ['z']])) = true :=
+  query_by_identifiers_meets_spec exW exW_wf _ 0 12 rfl (wholeBoundsOK_inferred _ rfl)
 
 example : okQueryByIntervalGuids exW [.gene, .feat, .var] [1001, 1100]
     (toAns (queryByIntervalGuids exW [.gene, .feat, .var] [1001, 1100])) = true :=
-  query_by_interval_guids_meets_spec_partial exW exW_wf exW_gcwf _ [1001, 1100] (by decide)
+  query_by_interval_guids_meets_spec exW exW_wf exW_gcwf _ [1001, 1100] (by decide)
     (by
-      intro c hc
+      intro c hc hk
       simp only [exW, List.mem_cons, List.not_mem_nil, or_false] at hc
-      rcases hc with rfl | rfl <;> decide)
-    0 12 rfl (by intro _; decide) (by
-      intro _
-      refine Or.inl (fun c hc => ?_)
-      simp only [exW, List.mem_cons, List.not_mem_nil, or_false] at hc
-      rcases hc with rfl | rfl <;> decide)
+      rcases hc with rfl | rfl <;> cases hk)
+    0 12 rfl (wholeBoundsOK_inferred _ rfl)
 
-/-! ## F — the modelled current code deviates on the finding inputs -/
+/-- interval-GUID query reaching into a VARIANT collection (ids given out of order) -/
+example : okQueryByIntervalGuids exN [.gene, .feat, .var] [1201, 1000, 1200]
+    (toAns (queryByIntervalGuids exN [.gene, .feat, .var] [1201, 1000, 1200])) = true :=
+  query_by_interval_guids_meets_spec exN exN_wf exN_gcwf _ [1201, 1000, 1200] (by decide) exN_var
+    0 12 rfl (wholeBoundsOK_nonwhole _ (by intro seq h; cases h))
+
+example : okChildQueryByGuids exN exVar [1201] (toCAns (childQueryResult exN exVar [1201])) = true :=
+  child_query_by_guids_meets_spec exN exN_wf exN_gcwf exVar (by decide) (fun _ => ⟨by decide, by decide⟩)
+    [1201] (by decide)
+
+example : okChildQueryByGuids exW exGene [1001] (toCAns (childQueryResult exW exGene [1001])) = true :=
+  child_query_by_guids_meets_spec exW exW_wf exW_gcwf exGene (by decide) (by intro h; cases h) [1001] (by decide)
+
+/-! ## F — findings: repaired ones as theorems about the code as it is + regression witnesses; open ones as witnesses -/
 
 /-- F-C09a, REPAIRED in /repo (88921fc; before the repair this loop ended in AttributeError for every collection
     holding a VariantIntervalCollection — regression line in corpus/C09/regress.ops): a coding-only query succeeds
@@ -258,53 +404,39 @@ theorem coding_only_skips_variants (src : Source) (s e : Int) (cw : Bool) (hs : 
     ∃ kept, queryKept src s e cw true = .ok kept ∧ ∀ c ∈ kept, c.kind ≠ .var ∧ c.coding = true :=
   queryKept_codingOnly_variant src s e cw hs hse hwf
 
-/-- F-C19f: an empty collection without a located parent has no bounds: AttributeError, not InvalidQueryError. -/
+/-- F-C19f (open): an empty collection without a located parent has no bounds: AttributeError, not
+    InvalidQueryError. -/
 theorem F_C19f_empty_collection :
     queryByPosition ⟨.none, none, []⟩ ⟨some 0, some 1, false, true, false⟩ = .error .attributeError
     ∧ okQueryByPosition ⟨.none, none, []⟩ ⟨some 0, some 1, false, true, false⟩ .raised = false := ⟨rfl, rfl⟩
 
-/-- F-C09b, as coded (`fixB = false`): on a sequence-less parent `_subset_parent` runs into `extract_sequence()`;
-    with the candidate repair (`fixB = true`) the parent is handed on unchanged. -/
-theorem F_C09b_sequence_less_parent :
-    subsetParentG false false ⟨.noseq, some (2, 8), [⟨.gene, 2, 8, false, 1, [], [⟨2, 8, .plus, 1000⟩]⟩]⟩ 3 8
+/-- F-C09b, regression: BEFORE the repair (996fc35) `_subset_parent` ran into `extract_sequence()` on a
+    sequence-less parent; the code as it is hands the parent on. -/
+theorem regression_F_C09b :
+    subsetParentBefore false false ⟨.noseq, some (2, 8), [⟨.gene, 2, 8, false, 1, [], [⟨2, 8, .plus, 1000⟩]⟩]⟩ 3 8
       = .error (.doc .NullSequence)
-    ∧ subsetParentG true false ⟨.noseq, some (2, 8), [⟨.gene, 2, 8, false, 1, [], [⟨2, 8, .plus, 1000⟩]⟩]⟩ 3 8
+    ∧ subsetParent ⟨.noseq, some (2, 8), [⟨.gene, 2, 8, false, 1, [], [⟨2, 8, .plus, 1000⟩]⟩]⟩ 3 8
       = .ok .noseq := ⟨rfl, rfl⟩
 
-/-- F-C09c, as coded (`fixC = false`): id query on a chunk `[3,9)` keeping a member that ends at 10: the clamp
-    `end = chromosome_location.end - 1` yields the chunk `[3,8)` — one base short of the specified `[3,9)`;
-    with the candidate repair (`fixC = true`) the specified chunk comes out. -/
-theorem F_C09c_end_clamp :
-    subsetParentG false false exK 2 10 = .ok (.chunk 3 8 ['T','T','G','C','A'])
-    ∧ expectPar exK.par 2 10 = .chunk 3 9 ['T','T','G','C','A','A']
-    ∧ subsetParentG false true exK 2 10 = .ok (.chunk 3 9 ['T','T','G','C','A','A']) := ⟨rfl, by decide, rfl⟩
+/-- F-C09c, regression: BEFORE the repair an id query on the chunk `[3,9)` keeping members from 2 to 10 got the
+    chunk `[3,8)` (clamp `end = chromosome_location.end - 1`) — one base short; the code as it is yields the
+    specified `[3,9)`. -/
+theorem regression_F_C09c :
+    subsetParentBefore false false exK 2 10 = .ok (.chunk 3 8 ['T','T','G','C','A'])
+    ∧ subsetParent exK 2 10 = .ok (.chunk 3 9 ['T','T','G','C','A','A'])
+    ∧ (expectPar exK 2 10).norm = (RPar.chunk 3 9 ['T','T','G','C','A','A']).norm := ⟨rfl, rfl, by decide⟩
 
-/-! ## R — the candidate repairs of F-C09b / F-C09c, proved in general -/
+/-- a chunk `[3, 9)` whose collection has bounds `[3, 10)`: what an id query that kept the feature `[6, 10)`
+    returns -/
+def exKwide : Source := ⟨.chunk 3 ['T','T','G','C','A','A'], some (3, 10), [exFeat]⟩
 
-/-- repaired F-C09c: a range overlapping the chunk is clamped to it — the new parent is the stretch
-    `[max start cs, min stop ce)`, i.e. exactly `expectPar`; no base is lost at the chunk end. -/
-theorem subset_parent_chunk_clamped_repaired (fixB : Bool) (src : Source) (cs : Int) (seq : List Char)
-    (hp : src.par = .chunk cs seq) (hb : src.bounds = none) (hcs : 0 ≤ cs) (start stop : Int)
-    (h : max start cs < min stop (cs + seq.length)) (hnid : ¬ (start = cs ∧ stop = cs + seq.length)) :
-    subsetParentG fixB true src start stop = .ok (expectPar src.par start stop) := by
-  rw [subsetParentG_chunk_clamped fixB src cs seq hp hb hcs start stop h hnid, hp]
-  rfl
-
-/-- repaired F-C09b: a sequence-less parent is handed on unchanged -/
-theorem subset_parent_noseq_repaired (fixC : Bool) (src : Source) (hp : src.par = .noseq) (start stop : Int)
-    (hne : start ≠ stop) : subsetParentG true fixC src start stop = .ok .noseq :=
-  subsetParentG_noseq fixC src hp start stop hne
-
-/-- the repairs do not touch what already was right: inside the chunk every version agrees -/
-theorem subset_parent_versions_agree_inside (fixB fixC : Bool) (src : Source) (cs : Int) (seq : List Char)
-    (hp : src.par = .chunk cs seq) (hb : src.bounds = none) (hcs : 0 ≤ cs) (start stop : Int)
-    (h : cs ≤ start ∧ start < stop ∧ stop ≤ cs + seq.length) :
-    subsetParentG fixB fixC src start stop = subsetParentG false false src start stop := by
-  rw [subsetParentG_chunk fixB fixC src cs seq hp hb hcs start stop h,
-    subsetParentG_chunk false false src cs seq hp hb hcs start stop h]
-
-example : subsetParentG false true exK 2 10 = .ok (expectPar exK.par 2 10) :=
-  subset_parent_chunk_clamped_repaired false exK 3 _ rfl rfl (by decide) 2 10 (by decide) (by decide)
+/-- F-C09d (open): a collection whose bounds exceed its sequence chunk — e.g. the RESULT of an id query that kept a
+    member reaching beyond the chunk — cannot be position-queried near the excess: `_subset_parent` compares with
+    the bounds, converts on the located range `[3,9)`, and `parent_to_relative_pos(9)` raises
+    InvalidPositionException; the specification wants the members with the sequence of `[8,9)`. -/
+theorem F_C09d_bounds_beyond_chunk :
+    subsetParent exKwide 8 10 = .error (.doc .InvalidPosition)
+    ∧ (expectPar exKwide 8 10).norm = (RPar.chunk 8 9 ['A']).norm := ⟨rfl, by decide⟩
 
 /-! ## more non-vacuity: the theorems above instantiated on concrete non-trivial inputs -/
 
@@ -312,6 +444,19 @@ theorem exW_childwf : ∀ c ∈ exW.children, ChildWF c := fun c hc => (exW_wf.h
 
 example : queryKept exW 3 9 true false = .ok (specFilter (iterChildren exW) false true 3 9) :=
   query_kept_is_specFilter exW 3 9 true false (by decide) (by decide) exW_childwf
+
+example : optimizedKept exW 3 9 false true = queryKept exW 3 9 false true :=
+  optimized_branch_agrees exW 3 9 false true (by decide) (by decide) exW_childwf (Or.inr (by
+    intro c hc
+    simp only [exW, List.mem_cons, List.not_mem_nil, or_false] at hc
+    rcases hc with rfl | rfl <;> decide))
+
+def exEmpty : Child := ⟨.gene, 5, 5, false, 7, [], [⟨5, 5, .plus, 1700⟩]⟩
+example : (∃ kept, optimizedKept ⟨.none, some (0, 12), [exEmpty]⟩ 2 9 false false = .ok kept ∧ exEmpty ∈ kept) ∧
+    (∃ kept, queryKept ⟨.none, some (0, 12), [exEmpty]⟩ 2 9 false false = .ok kept ∧ exEmpty ∉ kept) :=
+  optimized_branch_differs_on_empty_span _ 2 9 (by decide) (by decide)
+    (by intro c hc; simp only [List.mem_singleton] at hc; subst hc; exact ⟨by decide, by decide⟩)
+    exEmpty (by simp) rfl (by decide)
 
 example : ∃ S, Gen.bins 2 9 .bed false = .ok (.many S) ∧ anyBinIn S exGene.gcs = .ok true := by
   obtain ⟨S, hS⟩ := Props.C16.bins_all_is_set 2 9 .bed
@@ -321,36 +466,34 @@ example : validate exW (some 12) (some 12) = .error (.doc .InvalidQuery) := by
   rw [rejected_ranges_exact exW (some 12) (some 12) 0 12 rfl]; rfl
 
 example : subsetParent exW 4 7 = .ok (.chunk 4 7 ['T','G','C']) :=
-  subset_parent_whole exW exSeq rfl rfl 4 7 (by decide)
+  subset_parent_whole exW exSeq rfl 0 12 rfl (by decide) 4 7 (by decide)
+
+/-- explicit bounds `[1, 11)` on the whole chromosome -/
+example : subsetParent exWB 4 7 = .ok (.chunk 4 7 ['T','G','C']) :=
+  subset_parent_whole exWB exSeq rfl 1 11 rfl (by decide) 4 7 (by decide)
 
 example : subsetParent exK 4 7 = .ok (.chunk 4 7 ['T','G','C']) :=
-  subset_parent_chunk exK 3 _ rfl rfl (by decide) 4 7 (by decide)
+  subset_parent_chunk exK 3 _ rfl 3 9 rfl (by decide) (by decide) (by decide) 4 7 (by decide) (by decide)
+
+/-- a range reaching beyond the chunk on both sides (id query): clamped to `[3, 9)` -/
+example : subsetParent exK 2 10 = .ok (.chunk 3 9 ['T','T','G','C','A','A']) :=
+  subset_parent_chunk exK 3 _ rfl 3 9 rfl (by decide) (by decide) (by decide) 2 10 (by decide) (by decide)
+
+/-- explicit bounds that miss the chunk -/
+example : subsetParent ⟨.chunk 3 ['T','T','G'], some (7, 9), [exFeat]⟩ 7 8 = .ok .none :=
+  subset_parent_chunk_off _ 3 _ rfl 7 9 rfl (by decide) (by decide) 7 8
+
+example : ∃ rp, subsetParent exKB 5 7 = .ok rp ∧ rp.norm = (expectPar exKB 5 7).norm :=
+  subset_parent_is_expected exKB exKB_wf 4 8 rfl 5 7 (fun _ => ⟨by decide, fun _ => Or.inl (by decide)⟩)
 
 example : (memberSeq (.chunk 4 7 ['T','G','C']) exG2).norm = (expectMSeq (.chunk 4 7 ['T','G','C']) exG2).norm :=
-  member_sequence _ exG2 (by decide) (by decide)
+  member_sequence _ exG2 (by decide) ⟨by decide, by decide⟩
 
 example : (stretch 3 ['T','T','G','C','A','A'] 4 7)[(5 - 4 : Int).toNat]? = ['T','T','G','C','A','A'][(5 - 3 : Int).toNat]? :=
   new_chunk_base_at 3 _ 4 7 5 (by decide) (by decide)
 
-example : okQueryByIdentifiers exW [['b'], ['z']] (toAns (queryByIdentifiers exW [['b'], ['z']])) = true :=
-  query_by_identifiers_meets_spec exW exW_wf _ 0 12 rfl (by intro _; decide) (by
-    intro _
-    refine Or.inl (fun c hc => ?_)
-    simp only [exW, List.mem_cons, List.not_mem_nil, or_false] at hc
-    rcases hc with rfl | rfl <;> decide)
-
-example : okChildQueryByGuids exW exGene [1001] (toCAns (childQueryResult exW exGene [1001])) = true :=
-  child_query_by_guids_meets_spec exW exW_wf exW_gcwf exGene (by decide) (by decide) [1001] (by decide)
-
-def exVar : Child := ⟨.var, 9, 10, false, 3, [], [⟨9, 10, .plus, 1200⟩]⟩
-def exN : Source := ⟨.none, some (0, 12), [exGene, exVar]⟩
-
 example : ∃ kept, queryKept exN 1 12 true true = .ok kept ∧ ∀ c ∈ kept, c.kind ≠ .var ∧ c.coding = true :=
-  coding_only_skips_variants exN 1 12 true (by decide) (by decide)
-    (by
-      intro c hc
-      simp only [exN, List.mem_cons, List.not_mem_nil, or_false] at hc
-      rcases hc with rfl | rfl <;> exact ⟨by decide, by decide⟩)
+  coding_only_skips_variants exN 1 12 true (by decide) (by decide) (fun c hc => (exN_hull c hc).wf)
 
 example : overlapInt ((2 : Nat), (8 : Nat)) ((6 : Nat), (10 : Nat)) = Model.overlapKernel (2, 8) (6, 10) :=
   overlap_kernel_is_location_kernel (2, 8) (6, 10) (by decide) (by decide)
